@@ -514,3 +514,57 @@ def rule_no_whole_then_part(db, chk, cfg, rule="Z.out-point-fresh"):
                               "%s [%s]: `%s` is assigned as a whole and then given new x / y member-wise on the same path (%s): the resulting vertex keeps the z of the "
                               "point copied first instead of the default" % (f.qual, f.sig[:46], p.get("name"), where(cl.bad[0])), where(cl.bad[0]), cfg=cfg)
     return n
+
+
+# ---------------------------------------------------------------------------
+# Z.crossing-default: a crossing point the sweep makes up itself is handed to IntersectEdges with the default z
+# ---------------------------------------------------------------------------
+
+def rule_crossing_default(db, chk, cfg, rule="Z.crossing-default"):
+    """[USINGZ] IntersectEdges(e1, e2, pt) receives the new vertex in `pt`; its z is decided by SetZ - and only when a callback is installed:
+    without one SetZ returns at once and the vertex keeps whatever z `pt` arrived with.  So a point the caller *constructs* for the call
+    (a local assigned from a Point64 constructor, as opposed to an existing vertex such as e.top or node.pt) is constructed without a z
+    argument - or is a whole copy x, y, z of one vertex.  Otherwise a new vertex carries the z of some unrelated vertex, not the default."""
+    n = 0
+    for f in db.funcs:
+        if f.is_pattern or f.body is None:
+            continue
+        calls = [x for x in walk(f.body) if x.get("kind") in ("CXXMemberCallExpr", "CallExpr") and db.callee(x)[0] == "IntersectEdges"]
+        locs = {}
+        for c in calls:
+            a = _u(db.call_args(c)[-1]) if db.call_args(c) else None
+            if a is not None and a.get("kind") == "DeclRefExpr" and a.get("referencedDecl", {}).get("kind") == "VarDecl":
+                locs[a["referencedDecl"]["id"]] = a["referencedDecl"].get("name")
+        if not locs:
+            continue
+        for x in walk(f.body):
+            tgt, rhs = None, None
+            if x.get("kind") == "CXXOperatorCallExpr" and len(kids(x)) == 3 and canon(kids(x)[0]) == "operator=":
+                l = _u(kids(x)[1])
+                if l.get("kind") == "DeclRefExpr" and l.get("referencedDecl", {}).get("id") in locs:
+                    tgt, rhs = locs[l["referencedDecl"]["id"]], kids(x)[2]
+            elif x.get("kind") == "VarDecl" and x.get("id") in locs and kids(x):
+                tgt, rhs = locs[x["id"]], kids(x)[-1]
+            if tgt is None:
+                continue
+            r = rhs
+            while r.get("kind") in ("MaterializeTemporaryExpr", "ImplicitCastExpr", "CXXBindTemporaryExpr", "ExprWithCleanups", "CXXFunctionalCastExpr", "ParenExpr") and kids(r):
+                r = kids(r)[0]
+            if r.get("kind") not in ("CXXTemporaryObjectExpr", "CXXConstructExpr"):
+                continue
+            args = [_u(k) for k in kids(r)]
+            if len(args) != 3:
+                continue                                   # default construction / copy of an existing vertex
+            n += 1
+            z = args[2]
+            def base(m):
+                return canon(kids(m)[0]) if m.get("kind") == "MemberExpr" and kids(m) else None
+            whole = all(a.get("kind") == "MemberExpr" for a in args) and [a.get("name") for a in args] == ["x", "y", "z"] and len({base(a) for a in args}) == 1
+            ok = z.get("kind") == "CXXDefaultArgExpr" or whole
+            chk.instance(rule, {"function": f.qual, "point": tgt, "constructed_as": canon(r)[:70], "cfg": cfg}, ok=ok)
+            if not ok:
+                chk.violation(rule, f.qual, "%s|%s" % (tgt, canon(z)[:30]),
+                              "the crossing point `%s` handed to IntersectEdges is constructed as %s: its z comes from %s although x and y do not name "
+                              "that vertex; without a Z callback SetZ leaves it alone, so a vertex the sweep has just created carries that z instead of "
+                              "the default" % (tgt, canon(r)[:70], canon(z)[:30]), where(x), cfg=cfg)
+    return n
